@@ -579,6 +579,7 @@ def extract_decoder(ctx, src):
     cur = '{0}[{1}:{1} + 1]'.format(s, idx)
     handlers = []
     seen_pats = []
+    tried_before_table = []
     table_ok = plain_ok = unknown_ok = False
     esc_node = lp
     for q in paths:
@@ -680,6 +681,7 @@ def extract_decoder(ctx, src):
                                  rx.build(pat), base, grp))
             continue
         # no numeric escape matched: table escape or unknown escape
+        tried_before_table.append(len(order))
         nxt = '{0}[{1} + 1:{1} + 2]'.format(s, idx)
         tbl = [v for (c, v) in conds if c in (
             nxt + ' in _STRING_ESCAPES',
@@ -713,8 +715,65 @@ def extract_decoder(ctx, src):
             'escape decoding incomplete: plain={} table={} unknown={} '
             'numeric handlers={}'.format(plain_ok, table_ok, unknown_ok,
                                          len(handlers)))
+    if any(n != len(handlers) for n in tried_before_table):
+        # DecoderSpec.decode tries the numeric forms first: a loop that
+        # consults the table before one of them is not that decoder
+        raise AnalysisError('the escape table is consulted before a numeric '
+                            'escape form was tried')
     table = {k: v for k, v in src.escapes.items() if len(k) == 1}
     return DecoderSpec(handlers, table), esc_node
+
+
+class EvaluatedDecoder:
+    """The lexer evaluated on one quoted literal (absint/cx.py): `Lexer(8)`,
+    `process_lines([quote + text])`, `tokens`.  Used when the statement forms
+    of the in-string loop are outside the extraction, and as a cross-check of
+    the extraction on the reference escape forms.  Same interface as
+    DecoderSpec.decode; a clean result over the enumerated cases is not a
+    proof, a failing case is a witness."""
+
+    evaluated = True
+    handlers = ()
+
+    def __init__(self, ctx):
+        from ..absint import cx as CX
+        self.CX = CX
+        self.cx = CX.Cx(ctx.model, ctx.consts)
+        self.lexer = CX.ClassVal(ctx.model.cls(LX + ':Lexer'))
+        self.cache = {}
+
+    def decode(self, text, q):
+        key = (text, q)
+        if key not in self.cache:
+            self.cache[key] = self._decode(text, q)
+        return self.cache[key]
+
+    def _decode(self, text, q):
+        CX, cxi = self.CX, self.cx
+
+        def go():
+            lx = cxi.call(self.lexer, [], {'version': 8})
+            cxi.call(cxi.getattr(lx, 'process_lines'), [[q + text]], {})
+            out = []
+            for t in cxi.items(cxi.getattr(lx, 'tokens')):
+                v = cxi.getattr(t, 'value')
+                if isinstance(v, CX.Seq):
+                    if any(CX.is_sym(x) for x in v.items):
+                        raise AnalysisError('symbolic token data')
+                    v = bytes(v.items)
+                out.append((t.cls.name, v))
+            return out
+        paths = cxi.explore(go)
+        if len(paths) != 1 or paths[0][0]:
+            raise AnalysisError('lexer evaluation forks on concrete data')
+        kind, val = paths[0][1]
+        if kind == 'raise':
+            return None, None
+        if not val or val[0][0] != 'TokString' or \
+                not isinstance(val[0][1], (bytes, bytearray)):
+            return None, None
+        # the literal must be the whole line: one string token, nothing left
+        return bytes(val[0][1]), (len(text) if len(val) == 1 else None)
 
 
 class EvaluatedEncoder:
@@ -791,7 +850,13 @@ def rule_escapes(ctx, res, src):
             f_enc = ctx.model.func(LX + ':TokString.code')
             encs = {q: EvaluatedEncoder(ctx, q) for q in (b'"', b"'")}
             evaluated = True
-        dec, esc_if = extract_decoder(ctx, src)
+        try:
+            dec, esc_if = extract_decoder(ctx, src)
+        except AnalysisError as e:
+            why = 'decoder: ' + str(e)
+            dec, esc_if = EvaluatedDecoder(ctx), src.f.node
+            dec.decode(b'a"', b'"')       # cannot evaluate -> undecided
+            evaluated = True
     except AnalysisError as e:
         res.undecided('R-C06-escapes', LX + ':TokString.code', 'extraction',
                       str(e))
@@ -876,10 +941,10 @@ def rule_escapes(ctx, res, src):
     if not bad and evaluated:
         res.undecided('R-C06-escapes', where,
                       'decode(encode(b)) == b in every right context',
-                      'the re-spelling loop is outside the transducer model '
-                      '({}); {} evaluated cases round-trip, which bounds but '
-                      'does not decide the clause'.format(why[:80], n),
-                      f_enc.loc)
+                      'the re-spelling loop or the in-string loop is outside '
+                      'the extraction ({}); {} evaluated cases round-trip, '
+                      'which bounds but does not decide the clause'.format(
+                          why[:90], n), f_enc.loc)
     elif not bad:
         res.holds('R-C06-escapes', where,
                   'decode(encode(b)) == b in every right context',
@@ -887,15 +952,30 @@ def rule_escapes(ctx, res, src):
                   'next byte, and for context-dependent bytes every '
                   'two-byte and representative three-byte remainder'.format(
                       n), f_enc.loc)
-    # reference forms
+    # reference forms: through the extracted decoder and -- the extraction
+    # reads statement forms, the evaluation follows the code -- through the
+    # evaluated lexer
     miss = []
-    for (text, want) in ref.ESCAPE_FORMS:
+    decs = [dec]
+    if not getattr(dec, 'evaluated', False):
         try:
-            got, end = dec.decode(text + b'"', b'"')
-        except ValueError:
-            got, end = None, None
-        if got != want:
-            miss.append((text, got, want))
+            ev_dec = EvaluatedDecoder(ctx)
+            ev_dec.decode(b'a"', b'"')
+            decs.append(ev_dec)
+        except AnalysisError as e:
+            res.info('R-C06-escapes', LX + ':Lexer._process_token',
+                     'reference escape forms through the evaluated lexer',
+                     'not followed: ' + str(e)[:100])
+    sem = False
+    for d in decs:
+        for (text, want) in ref.ESCAPE_FORMS:
+            try:
+                got, end = d.decode(text + b'"', b'"')
+            except ValueError:
+                got, end = None, None
+            if got != want and not any(m[0] == text for m in miss):
+                miss.append((text, got, want))
+                sem = sem or getattr(d, 'evaluated', False)
     groups = {}
     for (text, got, want) in miss:
         kind = ('\\x' if text.startswith(b'\\x') else
@@ -908,7 +988,7 @@ def rule_escapes(ctx, res, src):
             'the literal "{}" denotes {!r} but the lexer decodes it to '
             '{!r}; written back it becomes a different string'.format(
                 text.decode('latin-1'), want, got),
-            src.module.loc(esc_if))
+            src.module.loc(esc_if), semantic=sem)
     if not miss:
         res.holds('R-C06-escapes', LX + ':Lexer._process_token',
                   'every reference escape form decodes to its value',
